@@ -115,6 +115,9 @@ def same(a, b, tol=TOL):
     return abs(a - b) <= tol * max(1.0, abs(a), abs(b))
 
 
+MAXLEN = [3]
+
+
 def check_config(name, o, D, res, viol):
     base_compute = name != "likelihood"
     wsets = [None] + ([[1.0, 0.0], [0.3, 0.7]] if D == 2 else [[2.0]])
@@ -140,7 +143,7 @@ def check_config(name, o, D, res, viol):
             if canon(vars(loss)) != before:
                 viol("loss-object-state-changed:" + name, f"{tag}: the loss object's attributes changed through evaluations ({[k for k in vars(loss) if canon(vars(loss)[k]) != dict(before[1]).get(k)]})", case)
             # 2. history independence: every sequence of <= 3 evaluations
-            for L in (1, 2, 3):
+            for L in range(1, MAXLEN[0] + 1 if name != "msm" else 4):
                 for seq in itertools.product(range(4), repeat=L):
                     loss = make(name, o, w, f)
                     for i in seq:
@@ -239,6 +242,7 @@ def run_cell(cell):
         if sum(1 for x in res["violations"] if x["key"] == key) < 1:
             res["violations"].append({"key": key, "what": what[:700], "case": case})
 
+    MAXLEN[0] = cell.get("maxlen", 3)
     for name, o, D in cell["configs"]:
         check_config(name, o, D, res, viol)
         res["outcomes"].add((name, D))
@@ -258,9 +262,9 @@ def replay_case(case):
 
 
 def main(ctx):
-    cells = [{"configs": [(n, o, D)]} for n, o in CONFIGS for D in (1, 2)]
+    cells = [{"configs": [(n, o, D)], "maxlen": 3 if ctx.quick else 4} for n, o in CONFIGS for D in (1, 2)]
     ctx.bounds = {"losses": [c[0] + str(c[1]) for c in CONFIGS], "coordinates": [1, 2], "weights": [None, [1, 0], [0.3, 0.7], [2.0]], "filters": [None, ["double", None], ["cumsum", "negate"], ["cumsum"]],
-                  "evaluation_sequences": "all 84 sequences of length <= 3 over a menu of 4 inputs", "ensemble_permutations": "all 6 for E = 3"}
+                  "evaluation_sequences": "all sequences of length <= 3 (84; thorough <= 4: 340, moments <= 3) over a menu of 4 inputs", "ensemble_permutations": "all 6 for E = 3"}
     ctx.rule = "every (loss configuration, D, weights, filters) x every clause; non-trivial = evaluation sequences of length >= 2"
     ctx.assumptions = ["LikelihoodLoss overrides compute_loss and documents that weights are ignored: clauses 3, 4a and the weight-length clause are not applied to it",
                        "values compared with relative tolerance 1e-12 (1e-13 for history independence)"]
